@@ -76,6 +76,31 @@ def run(rng, tier, res=None):
             if st(a) != st(b) or list(pa2) != list(pb):
                 msgs.append("a classifier re-fitted on the permuted training set differs from a fresh classifier fitted on it "
                             "(result depends on the earlier training order)")
+            # the same through a pre-computed matrix of the whole pool, training rows addressed by an index array:
+            # fit(X, Y, I) and fit(X[sigma], Y[sigma], I[sigma]) are the same training SET
+            if case % 2 == 0:
+                try:
+                    P = np.vstack([X, Q]); tot = len(P)
+                    pool = list(range(tot)); rng.shuffle(pool)
+                    Pp = P[pool]                                      # row r of the pool holds sample pool[r]
+                    pos = {s_: r for r, s_ in enumerate(pool)}
+                    M = np.array([[float(fn(Pp[u], Pp[v])) for v in range(tot)] for u in range(tot)])
+                    It = np.array([pos[t] for t in range(n)]); Iq = np.array([pos[n + i] for i in range(nq)])
+                    c_ = SupervisedOPF(distance=metric); c_.pre_computed_distance = True; c_.pre_distances = M
+                    c_.fit(X.copy(), Y.copy(), It); pc = c_.predict(Q.copy(), Iq)
+                    d_ = SupervisedOPF(distance=metric); d_.pre_computed_distance = True; d_.pre_distances = M
+                    d_.fit(X[sigma].copy(), Y[sigma].copy(), It[sigma]); pd_ = d_.predict(Q.copy(), Iq)
+                    for newpos, old in enumerate(sigma):
+                        nc, nd_ = c_.subgraph.nodes[old], d_.subgraph.nodes[newpos]
+                        if (nc.status, fb(nc.cost), nc.predicted_label) != (nd_.status, fb(nd_.cost), nd_.predicted_label):
+                            msgs.append(f"pre-computed matrix + index array: sample {old} has (prototype, cost, label) "
+                                        f"{(nc.status, nc.cost, nc.predicted_label)} in one order and {(nd_.status, nd_.cost, nd_.predicted_label)} in another")
+                            break
+                    if list(pc) != list(pd_) or list(pc) != list(pa):
+                        msgs.append(f"pre-computed matrix + index array: predictions {pc} / {pd_} (permuted) / {pa} (features)")
+                    res.hit("perm_precomputed_checked")
+                except Exception as ex:
+                    msgs.append(f"pre-computed permutation run raised {type(ex).__name__}: {ex}")
             viol(msgs, dict(meta, metric=metric, sigma=sigma))
             res.hit("perm_checked")
         else:
